@@ -123,9 +123,12 @@ def run(R, job):
                     # children given to the Tag constructor itself (falsy ones included: 0, "", False, HTML(""))
                     more = [arg(1) for _ in range(r.choice([0, 1, 2]))] + [r.choice([0, "", False, 0.0, core.HTML("")])]
                     ok = model(list(tl), out)
-                    ok = model(a, out) and ok
+                    # a dict given directly to the Tag constructor is a set of attributes, not a child (a dict nested in a list is a child)
+                    if not isinstance(a, dict):
+                        ok = model(a, out) and ok
                     for m_ in more:
-                        ok = model(m_, out) and ok
+                        if not isinstance(m_, dict):
+                            ok = model(m_, out) and ok
                     exp = out
                     tl = core.Tag("div", tl, a, *more).children
                 elif op.startswith("tag."):
